@@ -286,6 +286,23 @@ def _rename_locals(stmts, suffix):
     return rec(stmts)
 
 
+def _rename_one(stmts, old, new, make_mut):
+    def rec(n):
+        if isinstance(n, list):
+            return [rec(x) for x in n]
+        if not isinstance(n, dict):
+            return n
+        out = {k: (rec(v) if isinstance(v, (dict, list)) else v) for k, v in n.items()}
+        if out.get("k") == "pident" and out.get("name") == old:
+            out["name"] = new
+            if make_mut:
+                out["mut"] = True
+        if out.get("k") == "path" and out.get("p") == old:
+            out["p"] = new
+        return out
+    return rec(stmts)
+
+
 def inline_helpers(doc, log):
     fns = all_fns(doc)
     free = {}
@@ -384,10 +401,15 @@ def inline_helpers(doc, log):
                 r = expand(call, owner, under_try) if isinstance(call, dict) else None
                 if r is not None and r[1] is not None and not under_try:
                     body, tail = r
-                    out.extend(body)
-                    s2 = dict(s)
-                    s2["init"] = tail
-                    out.append(s2)
+                    if tail.get("k") == "path" and s["pat"].get("k") == "pident" and any(x.get("k") == "pident" and x.get("name") == tail["p"] for x in walk(body)):
+                        # the helper returns one of its own locals: that local *is* the caller's variable
+                        body = _rename_one(body, tail["p"], s["pat"]["name"], bool(s["pat"].get("mut")))
+                        out.extend(body)
+                    else:
+                        out.extend(body)
+                        s2 = dict(s)
+                        s2["init"] = tail
+                        out.append(s2)
                     changed = done = True
             if not done:
                 out.append(s)
